@@ -795,7 +795,7 @@ fn check(t: Tier) -> i32 {
         },
         "assumptions": [
             "interleavings are explored at the granularity of the outbound-queue lock: the hook mutex calls the scheduling point before every attempt to take it; everything between two such points (SSN fetch_add, flag computation, chunk construction, pushes under the lock) runs atomically. The other locks of sctp.rs (state, data_channels, parking_lot mutexes) and its std atomics are not scheduling points; tokio's async Mutex (send_lock) is: a sender that finds it taken returns Pending and shuttle parks the thread until the holder's unlock wakes it",
-            "the association never leaves state New and its run loop is never polled: nothing is transmitted, acknowledged or removed from the queue, flight_size stays 0; interleavings of senders with transmit() popping from the queue are therefore not covered here (transmit pops whole chunks from the front under the same lock)",
+            "the association is marked established through a hook (no handshake took place) and its run loop is never polled: nothing is transmitted, acknowledged or removed from the queue, flight_size stays 0; interleavings of senders with transmit() popping from the queue are therefore not covered here (transmit pops whole chunks from the front under the same lock)",
             "messages are attributed to runs by (channel, length) — the snapshot accessor exposes no payload bytes; byte equality of what the peer receives is the simulation's part of C12",
             "under PCT every 8th scheduling point is a yield (as in the C20 family)",
             "a clean batch is evidence over the sampled schedules and workloads, not a proof",
